@@ -2,7 +2,7 @@
 """Fail-closed Python-ast -> Gallina translator for lcm/simulate.py: create_data_scs and dict_product (the data state-choice
 space of the simulation: which rows exist, what their columns hold, which agent a row belongs to).
 
-Emits Gen/DataSCS.v.  Dicts are association lists in insertion order (`d[k] = v` is `dict_set`), 1-d arrays are lists,
+Emits Gen/DataSCS.v over Model/PyVocab.v: dicts are association lists in insertion order (`d[k] = v` is `dict_set`), 1-d arrays are lists,
 `jnp.repeat(x, repeats=k)` is `np_repeat`, `jnp.tile(x, reps=k)` is `np_tile`, `x[mask]` is `select_true` (Gen/ChoiceSegments.v),
 `vmap_1d` is Model/Dispatchers.v's (proved equal to the regenerated dispatchers in C19), `vi.query("...")` is translated by
 py2coq_axes.query.  The concatenated filter function (dags) enters as its signature and its value at scalar arguments.
@@ -185,15 +185,8 @@ def main():
         sv_sparse = {"combination_grid": "combination_grid", "dense_choices": "dense_choices"}
         sv_plain = {"combination_grid": "states", "dense_choices": "dense_choices"}
         text = f"""(* GENERATED by translator/py2coq_datascs.py from src/lcm/simulate.py — do not edit. *)
-From LCM Require Import Base.Prelude Base.Arr Model.Dispatchers Gen.ChoiceAxes Gen.ChoiceSegments.
+From LCM Require Import Base.Prelude Base.Arr Model.Dispatchers Model.PyVocab Gen.ChoiceAxes Gen.ChoiceSegments.
 Local Open Scope string_scope.
-
-(* the numpy / dict vocabulary of create_data_scs *)
-Definition dict_set {{A}} (d : list (string * A)) (k : string) (v : A) : list (string * A) :=      (* d[k] = v *)
-  if mem_str k (map fst d) then map (fun kv => if String.eqb (fst kv) k then (k, v) else kv) d else (d ++ [(k, v)])%list.
-Definition np_repeat {{A}} (x : list A) (repeats : nat) : list A := flat_map (fun e => repeat e repeats) x.   (* jnp.repeat(x, repeats) *)
-Definition np_tile {{A}} (x : list A) (reps : nat) : list A := flat_map (fun _ => x) (seq 0 reps).            (* jnp.tile(x, reps) *)
-Definition set_eqb (a b : list string) : bool := forallb (fun x => mem_str x b) a && forallb (fun x => mem_str x a) b.
 
 (* dict_product(d): meshgrid of the arrays with indexing="ij", stacked on a last axis and reshaped to (-1, len(arrays)): row r is the
    r-th index tuple in row-major order, column j holds arrays[j][idx[j]]; second component: the number of rows *)
